@@ -325,3 +325,130 @@ class NPStub:
 
     def transpose(self, m):
         return m.T
+
+
+# ---------------------------------------------------------------------------
+# generators: geometric(), np.random
+# ---------------------------------------------------------------------------
+class SymGeometric:
+    """xgi.utils.geometric(p): number of trials to the first success - any
+    integer >= 1 for 0 < p < 1; 1 for p == 1; inf for p == 0 (documented)."""
+
+    def __init__(self, ctx, rnd=None):
+        self.ctx = ctx
+        self.k = 0
+        self.rnd = rnd
+
+    def __call__(self, p):
+        import numpy as np
+
+        self.ctx.hit("geometric")
+        if self.rnd is not None:
+            self.rnd.draws.append((self.rnd.stream, "geometric"))
+        if p == 1:
+            return 1
+        if p == 0:
+            return np.inf
+        self.k += 1
+        return self.ctx.int(f"geo{self.k}", 1, None)
+
+
+class SymArray(list):
+    """What np.random.random(size=n) returns: elementwise comparison only."""
+
+    def __le__(self, o):
+        return [x <= o for x in self]
+
+    def __lt__(self, o):
+        return [x < o for x in self]
+
+    def __ge__(self, o):
+        return [x >= o for x in self]
+
+    def __gt__(self, o):
+        return [x > o for x in self]
+
+
+class NPRandomStub(SymRandom):
+    def __init__(self, ctx, name="nprnd"):
+        super().__init__(ctx, name)
+
+    def random(self, size=None):
+        if size is None:
+            return SymRandom.random(self)
+        return SymArray(SymRandom.random(self) for _ in range(size))
+
+    def choice(self, a, size=None, replace=True):
+        import numpy as np
+
+        pop = list(a)
+        if size is None:
+            return pop[self.ctx.choose(self._n("choice"), len(pop))]
+        out = []
+        for _ in range(size):
+            i = self.ctx.choose(self._n("choice"), len(pop))
+            out.append(pop[i] if replace else pop.pop(i))
+        return np.array(out, dtype=object) if out and not isinstance(out[0], int) else np.array(out)
+
+    def default_rng(self, seed=None):
+        self.seed(seed)
+        return self
+
+
+class NPProxy:
+    """numpy with its `random` submodule replaced."""
+
+    def __init__(self, random_stub):
+        import numpy
+
+        self.__dict__["_np"] = numpy
+        self.__dict__["random"] = random_stub
+
+    def __getattr__(self, name):
+        return getattr(self._np, name)
+
+
+class patched:
+    """with patched({(module, name): value, ...}): module globals replaced for the block."""
+
+    def __init__(self, mapping):
+        self.mapping = mapping
+
+    def __enter__(self):
+        self.saved = []
+        for (m, name), v in self.mapping.items():
+            mod = importlib.import_module(m)
+            self.saved.append((mod, name, mod.__dict__.get(name, _MISSING)))
+            setattr(mod, name, v)
+        return self
+
+    def __exit__(self, *a):
+        for mod, name, old in self.saved:
+            if old is _MISSING:
+                mod.__dict__.pop(name, None)
+            else:
+                setattr(mod, name, old)
+        return False
+
+
+GEN_MODULES = ["xgi.generators.random", "xgi.generators.uniform", "xgi.generators.simplicial_complexes", "xgi.generators.randomizing"]
+
+
+def rng_env(ctx):
+    """Patch every RNG entry point the generators use; returns (ctx manager, py stub, np stub)."""
+    import importlib as il
+
+    r = SymRandom(ctx)
+    nr = NPRandomStub(ctx)
+    geo = SymGeometric(ctx, r)
+    mapping = {}
+    for m in GEN_MODULES:
+        mod = il.import_module(m)
+        if "random" in mod.__dict__:
+            mapping[(m, "random")] = r
+        if "geometric" in mod.__dict__:
+            mapping[(m, "geometric")] = geo
+        if "np" in mod.__dict__:
+            mapping[(m, "np")] = NPProxy(nr)
+    mapping[("xgi.generators.uniform", "int")] = sint
+    return patched(mapping), r, nr
